@@ -456,6 +456,10 @@ theorem type_str_eq_std (t : ExcType) : typeStr t = stdTypeStr t := by
       · subst h2; simp [typeStr, stdTypeStr, plainMods]
       · simp [typeStr, stdTypeStr, plainMods, h1, h2]
 
+/-- the module names the source tests `__module__` against (regenerated from the source on every run) are the ones
+    the model uses -/
+theorem source_plain_modules_agree : Gen.plainModNames = plainMods := by decide
+
 /-- the display name is the qualified name: two classes are printed alike only if their `__qualname__`s agree
     up to the module prefix - in particular classes of one module with the same bare `__name__` but different
     `__qualname__` (`Lexer.Error`, `Parser.Error`) are told apart -/
